@@ -183,7 +183,8 @@ Junk == <<"junk", 0, 0>>
 
 \* one corner  [$]letters[$]digits .  <<kind, column, row>> with kind
 \*   "cell"  a cell of the sheet
-\*   "col" / "row"   letters only / digits only (half of A:B or 1:2)
+\*   "col" / "row"   letters only / digits only (half of A:B or 1:2; also
+\*           letters with a "$" after them, which some readers take for A)
 \*   "open"  a cell numeral with leading zeros
 \*   "junk"  anything else, also a cell beyond the sheet limits and row 0
 Corner(p) ==
@@ -200,7 +201,7 @@ Corner(p) ==
            ELSE IF Len(ds) > 7 THEN Junk
            ELSE IF col > MaxCol \/ Num(ds) < 1 \/ Num(ds) > MaxRow THEN Junk
            ELSE <<"cell", col, Num(ds)>>
-      ELSE IF k \in 1..3 /\ d2 = 0 /\ ds = <<>>
+      ELSE IF k \in 1..3 /\ ds = <<>>
            THEN (IF col > MaxCol THEN Junk ELSE <<"col", col, 0>>)
       ELSE IF k = 0 /\ digits THEN <<"row", 0, 0>>
       ELSE Junk
